@@ -1264,7 +1264,7 @@ def evaluate__from_datetime_functions(self: XPathFunction, context: ta.ContextTy
     if item is None:
         return []
     elif self.symbol.startswith('year'):
-        return item.year
+        return int(item.iso_year)
     elif self.symbol.startswith('month'):
         return item.month
     elif self.symbol.startswith('day'):
@@ -1310,7 +1310,7 @@ def evaluate__from_date_functions(self: XPathFunction, context: ta.ContextType =
     if item is None:
         return []
     elif self.symbol.startswith('year'):
-        return item.year
+        return int(item.iso_year)
     elif self.symbol.startswith('month'):
         return item.month
     elif self.symbol.startswith('day'):
